@@ -178,6 +178,8 @@ def check_exec(kind, node, mi, mo, h, runner="sync"):
     out = []
     n0 = len(h.calls)
     vals = {o: ("val", o) for o in mi.order}
+    if runner == "async":
+        run_sync = lambda g_, ins_, h_: run_async(g_, ins_, h_, None)  # noqa: E731 - the async twin of every executor
     if kind in ("fn", "fn2", "interrupt"):
         g = Graph([node])
         ins = {mi.current_of("a"): vals["a"]}
@@ -371,6 +373,11 @@ def run_history(kind, hist, acc, via_ctor=False):
             except Exception as e:  # noqa: BLE001
                 ev = [("x", f"{type(e).__name__}: {str(e)[:150]}")]
             vs += [("ancestor-changed-by-derivation", f"running the ORIGINAL node after relatives were derived from it: {m}") for _, m in ev[:1]]
+    if not vs and kind != "interrupt":
+        try:
+            vs += [(s_, f"under the AsyncRunner: {m}") for s_, m in check_exec(kind, node, mi, mo, h, runner="async")]
+        except Exception as e:  # noqa: BLE001
+            vs.append(("execution-failed" if kind not in ("graph", "graph-map", "graph-map2") else "graphnode-execution-failed", f"running the renamed node under the AsyncRunner failed: {type(e).__name__}: {str(e)[:150]}"))
     if not vs:
         try:
             vs += check_exec(kind, node, mi, mo, h)
